@@ -3,6 +3,7 @@ package props
 import (
 	"fmt"
 	mbits "math/bits"
+	"strings"
 	"sync"
 	"unsafe"
 
@@ -82,7 +83,7 @@ func init() {
 		Word32:   true,
 		DebugTag: true,
 		Level:    "exploration",
-		Rule: "E1 bounded-exhaustive enumeration: every string of length ≤N over {00,ff,a5,5a,01,80} (plus every single byte value, alone and in a 3-byte string, 12 strings of 11..66 bytes, and every string of ≤4 bytes over {c3,a9,'a'} and {e6,97,a5}: well-formed 2- and 3-byte UTF-8) × every start bit in [0, 8·len+9] (and, for 5 strings, 56 far start bits: 2^16, 2^24, 2^28, 2^29, 2^30 (±1) and the last 41 int32 values) × every width 0..32 (and, on 64-bit builds, strings of 2^28-1, 2^28, 2^28+1 bytes - 2^31 bits, one more than an int32 counts - × start bits at both ends, around 2^30 and around the last int32 × 9 widths, against a byte-level reference): FromStr32 (count and value) and, for widths ≤30, PathOf against the slice [from, from+k) of the string's '0'/'1' rendering; PathsOf on generated key lists of every threshold size (round numbers ±1) from 1000 to 70000 keys × 4 run shapes (all equal, runs of 3, all distinct, runs of 4096 straddling every multiple of 4096) × dedup on/off; PathsOf on every pair of the 40 keys of ≤3 bytes over {a,b,r} and every triple of the 13 keys of ≤2 bytes × every start bit 0..17 × heights {1,4,7,8,9,12,16,17,24,30} × dedup on/off; PathsOf on every key list of length ≤4 over 5 short keys × dedup on/off × a (from,height) grid against map + adjacent-dedup of the reference paths. " +
+		Rule: "E1 bounded-exhaustive enumeration: every string of length ≤N over {00,ff,a5,5a,01,80} (plus every single byte value, alone and in a 3-byte string, 12 strings of 11..66 bytes, and every string of ≤4 bytes over {c3,a9,'a'} and {e6,97,a5}: well-formed 2- and 3-byte UTF-8) × every start bit in [0, 8·len+9] (and, for 5 strings, 56 far start bits: 2^16, 2^24, 2^28, 2^29, 2^30 (±1) and the last 41 int32 values) × every width 0..32 (and, on 64-bit builds, strings of 2^28-1, 2^28, 2^28+1 bytes - 2^31 bits, one more than an int32 counts - × start bits at both ends, around 2^30 and around the last int32 × 9 widths, against a byte-level reference): FromStr32 (count and value) and PathOf (every height 0..32) against the slice [from, from+k) of the string's '0'/'1' rendering; PathsOf on generated key lists of every threshold size (round numbers ±1) from 1000 to 70000 keys × 4 run shapes (all equal, runs of 3, all distinct, runs of 4096 straddling every multiple of 4096) × dedup on/off; PathsOf on every list of ≤3 keys over 15 keys of 1-bits (ff^k, ff^k 7f, ff^k fe) × start bits {0,1,5,8} × heights {24,30,31,32} × dedup (the path of 32 ones at height 32 is the word ^uint64(0)); PathsOf on every pair of the 40 keys of ≤3 bytes over {a,b,r} and every triple of the 13 keys of ≤2 bytes × every start bit 0..17 × heights {1,4,7,8,9,12,16,17,24,30} × dedup on/off; PathsOf on every key list of length ≤4 over 5 short keys × dedup on/off × a (from,height) grid against map + adjacent-dedup of the reference paths. " +
 			"A case is one call; non-trivial when 0 < k (some bit is taken from the string) and the string is not all-zero.",
 		Assumptions: []string{"strings longer than N and other byte values are not enumerated (the function reads at most 5 bytes; spans of 1..5 bytes and starts before/at/after the end are all inside)"},
 		Run:         c11Run,
@@ -198,7 +199,7 @@ func c11Run(c *mc.Ctx) {
 				}
 			}
 			nfrom := int32(8*len(s) + 9)
-			c.Expect(int64(nfrom+1) * (33 + 31))
+			c.Expect(int64(nfrom+1) * (33 + 33))
 			for from := int32(0); from <= nfrom; from++ {
 				for w := int32(0); w <= 32; w++ {
 					wk, wv := c11Ref(bits, from, w)
@@ -210,7 +211,7 @@ func c11Run(c *mc.Ctx) {
 					if wk > 0 && !zero {
 						nontriv++
 					}
-					if w <= 30 {
+					if w <= 32 {
 						wp := c11RefPath(bits, from, w)
 						gp, p := pathOf(s, from, w)
 						if p != "" || gp != wp {
@@ -299,7 +300,7 @@ func c11Run(c *mc.Ctx) {
 						}
 						evals++
 					}
-					if w <= 30 {
+					if w <= 32 {
 						wp := c11RefPath(bits, from, w)
 						gp, p := pathOf(s, from, w)
 						if p != "" || gp != wp {
@@ -347,7 +348,7 @@ func c11Run(c *mc.Ctx) {
 						}
 						n++
 					}
-					if w <= 30 {
+					if w <= 32 {
 						k, v := c11RefBytes(sB, from, w)
 						wp := ref.PathWord(v>>uint(w-k), int(k), int(w))
 						gp, p := pathOf(sB, from, w)
@@ -437,6 +438,63 @@ func c11Run(c *mc.Ctx) {
 		c.Count(evals, nontriv)
 		c.Add("pathsof_calls", evals)
 	})
+	// PathsOf at the tallest heights, with keys of 1-bits: the path of 32 ones at height 32 is the word
+	// ^uint64(0) - a value an implementation may be using for "no path yet". Every list of ≤3 keys over the
+	// 15 keys of ≤5 bytes {ff^k, ff^k 7f, ff^k fe} × start bits {0,1,5,8} × heights {24,30,31,32} × dedup.
+	{
+		var ks []string
+		for k := 0; k <= 4; k++ {
+			base := strings.Repeat("\xff", k)
+			ks = append(ks, base+"\xff", base+"\x7f", base+"\xfe")
+		}
+		var lists3 [][]string
+		for _, x := range ks {
+			lists3 = append(lists3, []string{x})
+			for _, y := range ks {
+				lists3 = append(lists3, []string{x, y})
+				for _, z := range ks {
+					lists3 = append(lists3, []string{x, y, z})
+				}
+			}
+		}
+		var grid3 [][2]int32
+		for _, from := range []int32{0, 1, 5, 8} {
+			for _, h := range []int32{24, 30, 31, 32} {
+				grid3 = append(grid3, [2]int32{from, h})
+			}
+		}
+		c.Expect(int64(len(lists3)) * int64(len(grid3)) * 2)
+		c.Par(len(lists3), func(li int) {
+			ks := lists3[li]
+			bits := make([]string, len(ks))
+			for i, k := range ks {
+				bits[i] = ref.Bits(k)
+			}
+			var evals int64
+			for gi, g := range grid3 {
+				for d := 0; d < 2; d++ {
+					dedup := d == 1
+					want := []uint64{}
+					var prev uint64
+					for i := range ks {
+						p := c11RefPath(bits[i], g[0], g[1])
+						if dedup && i > 0 && p == prev {
+							continue
+						}
+						prev = p
+						want = append(want, p)
+					}
+					got, p := pathsOf(ks, g[0], g[1], dedup)
+					if p != "" || !eqU64(got, want) {
+						c.Fail(7<<50|int64(li)<<12|int64(gi)<<1|int64(d), "PathsOf", "PathsOf/tall-ones", c11Case{Keys: gen.BytesList(ks), From: g[0], W: g[1], Dedup: dedup}, p+hexs(got), hexs(want))
+					}
+					evals++
+				}
+			}
+			c.Count(evals, evals)
+			c.Add("pathsof_calls", evals)
+		})
+	}
 	// PathsOf, windows at every alignment: adjacent keys that agree on their first bytes and differ
 	// (or end) in a later one, under EVERY start bit 0..17 × heights {1,4,7,8,9,12,16,17,24,30} - a window
 	// that starts inside a byte touches one byte more than ceil(height/8)
